@@ -24,11 +24,18 @@ def c02_jobs(tier):
             jobs.append(dict(name="ramp-%s" % o, harness="c02_hashheap",
                              opts=dict(order=o, keys="mixed", exp=1, mode="ramp"),
                              bound_min=0, bound_max=0, deadline=60))
+        # the default ordering on sort keys one unit in the last place apart (oracle: the documented "increasing dsortkey")
+        jobs.append(dict(name="seq-default-near-equal-sortkeys", harness="c02_hashheap",
+                         opts=dict(order="default", keys="auto", exp=1, depth=4, mode="seq", nearkeys=1, lives=0),
+                         bound_min=0, bound_max=0, deadline=120))
         # generated keys mixed with caller-supplied keys at the ends of the range (2, 2^64-2, 2^64-1)
         jobs.append(dict(name="seq-default-mixed-extreme-keys", harness="c02_hashheap",
                          opts=dict(order="default", keys="mixed", exp=1, depth=4, mode="seq", ekeys=1, lives=0, reuse=0),
                          bound_min=0, bound_max=0, deadline=120))
     else:
+        jobs.append(dict(name="seq-default-near-equal-sortkeys", harness="c02_hashheap",
+                         opts=dict(order="default", keys="auto", exp=1, depth=5, mode="seq", nearkeys=1, lives=0),
+                         bound_min=0, bound_max=0, deadline=600))
         jobs.append(dict(name="seq-default-mixed-extreme-keys", harness="c02_hashheap",
                          opts=dict(order="default", keys="mixed", exp=1, depth=5, mode="seq", ekeys=1, lives=0, reuse=0),
                          bound_min=0, bound_max=0, deadline=600))
@@ -827,6 +834,9 @@ def c20_jobs(tier):
             j("seq-2048x2", objsz=2048, objnum=2, mode="seq", depth=D),
             j("seq-4096x1", objsz=4096, objnum=1, mode="seq", depth=D),
             j("seq-24", objsz=24, objnum=3, mode="seq", depth=D),
+            # chunks of 256 KiB and 1 MiB (4096 objects of 64 bytes, 256 of 4096 bytes): every object of a chunk is used
+            j("ramp-64x4096", 0, objsz=64, objnum=4096, mode="ramp", target=9000, nochoice=1),
+            j("ramp-4096x256", 0, objsz=4096, objnum=256, mode="ramp", target=600, nochoice=1),
             j("seq-4104", objsz=4104, objnum=1, mode="seq", depth=D - 1),
             j("ramp66-4096", 1 if tier == "quick" else 2, objsz=4096, objnum=1, mode="ramp", target=66),
             j("ramp66-2048", 1, objsz=2048, objnum=2, mode="ramp", target=132),
@@ -925,10 +935,12 @@ def c17_jobs(tier):
                     crash_is_violation=True)
     if tier == "quick":
         return [j("plain-len5", mode="plain", maxlen=5), j("offset-len5", mode="offset", maxlen=5),
+                j("offset12-len5", mode="offset12", maxlen=5),
                 j("weighted-len3", mode="weighted", maxlen=3),
                 dict(j("plain-len4-fptrap", mode="plain", maxlen=4, fptrap=1), cfg="rel"),
                 dict(j("weighted-len3-fptrap", mode="weighted", maxlen=3, fptrap=1), cfg="rel")]
     return [j("plain-len7", mode="plain", maxlen=7), j("offset-len7", mode="offset", maxlen=7),
+            j("offset12-len6", mode="offset12", maxlen=6),
             j("weighted-len4", mode="weighted", maxlen=4),
             dict(j("plain-len6-fptrap", mode="plain", maxlen=6, fptrap=1), cfg="rel"),
             dict(j("offset-len5-fptrap", mode="offset", maxlen=5, fptrap=1), cfg="rel"),
